@@ -21,6 +21,8 @@ for s in $seeds; do
   [ "$s" = "C09-e" ] && ids=C01
   [ "$s" = "C14-e" ] && ids=C16
   [ "$s" = "C18-e" ] && ids=C17
+  [ "$s" = "C05-f" ] && ids=C01
+  [ "$s" = "C09-f" ] && ids=C05
   git -C $WT checkout -q -- . ; git -C $WT clean -fdq
   if ! git -C $WT apply /verif/seeded/$s/patch.diff 2>/dev/null; then echo "$s: PATCH DOES NOT APPLY"; miss=$((miss+1)); continue; fi
   caught=no
